@@ -230,6 +230,18 @@ func (cacheSuite) Gen(r *Rng, i int, tier string) any {
 		}
 		c.Builds = append(c.Builds, b)
 	}
+	// A build in which a download is rejected is not killed: once a package has failed, the installer
+	// goroutine of InstallPackages is gone and the errgroup limit (jobs+1) lets two packages be fetched at
+	// the same time — the marker order of such a build is up to the Go scheduler.
+	for k := range c.Builds {
+		b := &c.Builds[k]
+		if b.Offline || c.Rebuild == nil {
+			continue
+		}
+		if (b.FilesAhead && c.rebuiltAt(b.Rev+1)) || (b.HeadRev >= 0 && b.HeadRev != b.Rev && c.rebuiltAt(b.Rev)) {
+			b.Crash, b.Stall = 0, ""
+		}
+	}
 	// F19a shape: killed right after `.dat.tar.gz` was advertised, the next build is killed inside the regeneration
 	if r.Chance(6) {
 		j := r.Intn(cacheNPkg)
